@@ -80,8 +80,8 @@ CHECKS = {
     technique="TLA+ model of the launch, all interleavings by TLC; TLC-simulated schedules replayed thread by thread on the real kernel body; trace validation by TLC",
     design="5/C13"),
  "C14": dict(
-    text="Functional.tla models functors, composition and combinators as a stack machine over abstract terms; TLC checks associativity of composition for every split, that the computed arity is exactly what the machine consumes, that surplus operands are passed on, and combinator laws, on all compositions up to the bound; for the programs of the program machine the driver builds the composed view and the composed functor side by side and runs: the direct view, the composition applied at once and one operand at a time (currying), both groupings, the extracted composition applied to the extracted operands, the identity and order of the extracted operands, and structural facts of the compute graph; TraceOps.tla validates every variant against the program's denotation.",
-    note="Trusted: TLC, Functional.tla / Denote, drv_functional.cpp. Combinators are checked at design level only. flip / expand_dims are exercised in first position only (compile-time API limitation). One program class is a known finding (extraction for a binary ufunc applied to another view).",
+    text="Functional.tla models functors, composition and combinators as a stack machine over abstract terms; TLC checks associativity of composition for every split, that the computed arity is exactly what the machine consumes, that surplus operands are passed on, and combinator laws, on all compositions up to the bound; for the programs of the program machine the driver builds the composed view and the composed functor side by side and runs: the direct view, the composition applied at once and one operand at a time (currying), both groupings, the extracted composition applied to the extracted operands, the identity and order of the extracted operands, and structural facts of the compute graph; TraceOps.tla validates every variant against the program's denotation; compositions with the combinators swap / dup / dig2 / bury2 (every composition of <= 2, thorough 3, functors over an 8-functor alphabet, exported by TLC from StackMachine.tla) are applied to real operands under five splits of the operand list and both groupings and the resulting stack must be the stack machine's, interpreted on the operand values.",
+    note="Trusted: TLC, StackMachine.tla / Functional.tla / Denote, drv_functional.cpp, drv_stack.cpp. flip / expand_dims are exercised in first position only (compile-time API limitation). One program class is a known finding (extraction for a binary ufunc applied to another view).",
     technique="TLA+ stack-machine model checked by TLC; TLC-generated programs replayed on real functors/compositions/extraction; trace validation by TLC",
     design="5/C14"),
  "C12": dict(
@@ -90,8 +90,8 @@ CHECKS = {
     technique="TLA+ loop model checked by TLC; real SIMD evaluators driven through a tracing context and real contexts; trace validation (result identity + access ranges) by TLC",
     design="5/C12"),
  "C11": dict(
-    text="StaticInfo.tla defines soundness of the five compile-time traits against a run-time shape and a per-axis abstract domain (Const n | Clip m | Dyn) with concretisation and abstract transfer functions for transpose, flatten, reduce and broadcast; TLC checks soundness of the traits and of every transfer function on the bounded domain. The driver instantiates view TYPES from leaves of six static-knowledge kinds and programs with compile-time-constant or run-time arguments, logs the traits of the type and of the type eval() chose next to shape()/dim()/size() and all elements of OBJECTS for every run-time shape the leaf admits, and TraceStatic.tla validates soundness and completeness of the evaluation.",
-    note="Trusted: TLC, StaticInfo.tla, drv_static.cpp. Clipped-shape leaves compose only with flatten/reshape (compile-time API limitation); depth-3 types are not generated; the clamp/capacity hooks of the design are replaced by the end-to-end check 'eval returned every element'.",
+    text="StaticInfo.tla defines soundness of the five compile-time traits against a run-time shape and a per-axis abstract domain (Const n | Clip m | Dyn) with concretisation and abstract transfer functions for transpose, flatten, reduce and broadcast; TLC checks soundness of the traits and of every transfer function on the bounded domain. The driver instantiates view TYPES from leaves of six static-knowledge kinds and programs with compile-time-constant or run-time arguments, logs the traits of the type and of the type eval() chose next to shape()/dim()/size() and all elements of OBJECTS for every run-time shape the leaf admits, and TraceStatic.tla validates soundness and completeness of the evaluation; binary views (concatenate with run-time / compile-time / None axis, add, stack) run over every pair of seven leaf kinds that compiles and every admitted pair of run-time shapes, and every object is additionally validated against the reference semantics (TraceOps.tla), so a result clamped to an operand's bound is rejected.",
+    note="Trusted: TLC, StaticInfo.tla, Denote, drv_static.cpp, drv_static2.cpp (combination table harness/drivers/static2_combos.inc found by trial compilation). Clipped-shape leaves compose only with flatten/reshape (compile-time API limitation); depth-3 types are not generated; the clamp/capacity hooks of the design are replaced by the end-to-end check 'eval returned every element'.",
     technique="TLA+ abstract-interpretation model checked by TLC; generated view types instantiated over every admitted run-time shape; trace validation by TLC",
     design="5/C11"),
  "C09": dict(
